@@ -448,8 +448,11 @@ def phase_fraction(feed, IDs, K, phi=None, top_chemicals=None,
     else:
         Fb = 0.
     F_mol += Fa + Fb
-    z_mol = mol / F_mol
-    phi = compute_phase_fraction(z_mol, K, phi, Fa/F_mol, Fb/F_mol)
+    if F_mol:
+        z_mol = mol / F_mol
+        phi = compute_phase_fraction(z_mol, K, phi, Fa/F_mol, Fb/F_mol)
+    else: # Nothing to partition
+        phi = 0.
     if phi <= 0.:
         phi = 0.
     elif phi < 1.:
@@ -557,8 +560,11 @@ def partition(feed, top, bottom, IDs, K, phi=None, top_chemicals=None,
     else:
         Fb = 0.
     F_mol += Fa + Fb
-    z_mol = mol / F_mol
-    phi = compute_phase_fraction(z_mol, K, phi, Fa/F_mol, Fb/F_mol)
+    if F_mol:
+        z_mol = mol / F_mol
+        phi = compute_phase_fraction(z_mol, K, phi, Fa/F_mol, Fb/F_mol)
+    else: # Nothing to partition
+        phi = 0.
     if phi <= 0.:
         bottom.imol[IDs] = mol
         phi = 0.
